@@ -353,19 +353,54 @@ Proof.
     rewrite ?tg_dl_ids_app, L1, D1; simpl; rewrite app_nil_r; reflexivity.
 Qed.
 
+Lemma tg_find_id_id : forall id q m, tg_find_id id q = Some m -> tm_id m = id.
+Proof.
+  induction q as [|x q IH]; intros m H; simpl in H; [discriminate|].
+  destruct (tm_id x =? id) eqn:E; [inversion H; subst; apply Z.eqb_eq; exact E | auto].
+Qed.
+
+(* a CoAP retransmission either goes straight to the record layer or, if the gate is closed,
+   back to the tail of the delay queue *)
+Lemma tg_retransmit_fifo : forall seen s id s' o,
+  tg_pre seen s -> tg_retransmit O s id false = (s', o) -> tg_nonack o = true ->
+  tg_ids (ts_delayq s') = tg_ids (ts_delayq s) ++ tg_dl_ids o.
+Proof.
+  intros seen s id s' o P H N. unfold tg_retransmit in H.
+  destruct (tg_find_id id (ts_sendq s)) as [m|] eqn:FI.
+  2:{ inversion H; subst. simpl. rewrite app_nil_r. reflexivity. }
+  apply tg_find_id_id in FI.
+  set (s1 := if 0 <? ts_con_active s then tg_set_con_active s (ts_con_active s - 1) else s) in H.
+  assert (D1 : ts_delayq s1 = ts_delayq s) by (unfold s1; destruct (0 <? ts_con_active s); reflexivity).
+  assert (S1 : tg_same s s1) by (unfold s1; destruct (0 <? ts_con_active s); unfold tg_same; simpl; auto).
+  assert (P1 : tg_pre seen s1) by (eapply tg_pre_same; eauto).
+  destruct (negb (tg_state_eqb (ts_state s1) TgEstablished)
+            || tm_con m && (ts_nstart s1 <=? ts_con_active s1)).
+  { inversion H; subst. simpl. rewrite D1. unfold tg_ids. rewrite map_app. reflexivity. }
+  rewrite tg_session_send_dtls in H by apply P1.
+  destruct (tg_dtls_send O s1 m) as [[s2 o2] bw] eqn:DS.
+  assert (N2 : tg_nonack o2 = true).
+  { destruct ((0 <=? bw) && tm_con m); [inversion H; subst; auto|].
+    destruct (_ && _); inversion H; subst; auto. }
+  destruct (tg_dtls_send_fifo _ _ _ _ _ _ P1 DS N2) as [D2 [L2 _]].
+  destruct ((0 <=? bw) && tm_con m); [|destruct (_ && _)]; inversion H; subst; simpl;
+    rewrite L2, D2, D1, app_nil_r; reflexivity.
+Qed.
+
 (* ------------------------------------------------------------------ runs *)
 Definition tg_fifo_ev (e : tg_ev) : Prop :=
   match e with
-  | EConnect | ESend _ true | ERecv _ _ | ETimeout => True
+  | EConnect | ESend _ true | ERecv _ _ | ETimeout | ERetransmit _ false => True
   | _ => False
   end.
 
 (* ids handed to the record layer out of the delay queue: the OTlsTx of every step that is not
-   itself a coap_send; ids accepted into the queue *)
+   itself a coap_send or a retransmission (those transmit directly); ids accepted into the queue
+   (by coap_send, or again by a retransmission that found the gate closed) *)
 Fixpoint tg_flushed (tr : list (tg_ev * list tg_out)) : list Z :=
   match tr with
   | [] => []
   | (ESend _ _, _) :: r => tg_flushed r
+  | (ERetransmit _ _, _) :: r => tg_flushed r
   | (_, o) :: r => tg_tx_ids o ++ tg_flushed r
   end.
 Definition tg_delayed (tr : list (tg_ev * list tg_out)) : list Z := tg_dl_ids (tg_outs tr).
@@ -427,6 +462,9 @@ Proof.
       simpl. rewrite B1. simpl. rewrite A1, <- !app_assoc, L2. reflexivity.
     + pose proof (tg_timeout_fifo _ _ _ S0 N1) as [A1 B1].
       simpl. rewrite B1. simpl. rewrite A1, <- !app_assoc, L2. reflexivity.
+    + destruct giveup; [contradiction|].
+      pose proof (tg_retransmit_fifo _ _ _ _ _ P S0 N1) as A1.
+      simpl. rewrite app_assoc, <- A1. exact L2.
 Qed.
 
 (* ------------------------------------------------------------------ theorem, part 3 *)
